@@ -219,3 +219,6 @@ func MakeContent(r *rand.Rand, o ContentOpts) Content {
 
 // U64 little-endian helper for descriptors.
 func U64(v uint64) []byte { return binary.LittleEndian.AppendUint64(nil, v) }
+
+// RandT is the PRNG type used by the generators.
+type RandT = rand.Rand
